@@ -81,6 +81,8 @@ Proof.
     + exists rest; tauto.
   - destruct pd as [[b l]|]; [|discriminate]. injection H as <-.
     constructor; cbn; [exists ks; tauto|intros; discriminate|exists rest; tauto].
+  - destruct pd; [discriminate|]. destruct q; [|discriminate]. injection H as <-.
+    constructor; cbn; [exists ks; tauto|exact Hp|exists rest; tauto].
 Qed.
 
 Lemma nrun_inv : forall tr s s', NInv s -> nrun s tr = Some s' -> NInv s'.
